@@ -217,6 +217,30 @@ theorem C16_violated_exclude_order_go_prerelease :
                 !sortedBy EditSpec.lineExcludeLess [[B "a", B "v1.10.0"], [B "a", B "v1.9.0"]]) = true := by
   decide +kernel
 
+/-- Recorded finding (known_findings.json, `c16-indirect:remainder-is-marker`): clearing the indirect marker rewrites
+    `// indirect; T` to `// T` without looking at `T`; when `T` is itself an indirect marker (`// indirect; indirect`)
+    the line stays indirect although `Indirect: false` was requested — the typed list says direct, the formatted file
+    and its strict re-parse say indirect.  Same for `SetRequireSeparateIndirect`.  Witness on the model. -/
+theorem C16_violated_indirect_marker_survives :
+    Edit.outcomeIs (Edit.sessionMod (B "module m\nrequire a v1.0.0 // indirect; indirect\n")
+        [.cleanup, .setRequire [⟨B "a", B "v1.0.0", false⟩] false, .cleanup])
+      (fun o => o.typed.require == [⟨B "a", B "v1.0.0", false⟩] &&
+                (o.reparsed.map (·.require)) == some [⟨B "a", B "v1.0.0", true⟩] &&
+                o.out == B "module m\n\nrequire a v1.0.0 // indirect\n") = true ∧
+    Edit.outcomeIs (Edit.sessionMod (B "module m\nrequire a v1.0.0 // indirect; indirect\n")
+        [.cleanup, .setRequireSeparateIndirect [⟨B "a", B "v1.0.0", false⟩] false, .cleanup])
+      (fun o => o.typed.require == [⟨B "a", B "v1.0.0", false⟩] &&
+                (o.reparsed.map (·.require)) == some [⟨B "a", B "v1.0.0", true⟩]) = true := by
+  constructor <;> decide +kernel
+
+/-- the same request on a line whose payload is not a marker clears the marker (the witness is specific) -/
+example :
+    Edit.outcomeIs (Edit.sessionMod (B "module m\nrequire a v1.0.0 // indirect; because\n")
+        [.cleanup, .setRequire [⟨B "a", B "v1.0.0", false⟩] false, .cleanup])
+      (fun o => o.typed.require == [⟨B "a", B "v1.0.0", false⟩] &&
+                (o.reparsed.map (·.require)) == some [⟨B "a", B "v1.0.0", false⟩]) = true := by
+  decide +kernel
+
 /-- the same file with `go 1.21` is put in the semantic order (the witness is specific to the pre-release form) -/
 example :
     Edit.outcomeIs (Edit.sessionMod (B "go 1.21\nexclude (\n\ta v1.10.0\n\ta v1.9.0\n)\n") [.setRequire [] false, .cleanup])
